@@ -5,6 +5,8 @@
 V=$(cd "$(dirname "$0")/.." && pwd); REPO=${REPO:-/repo}; cd "$V" || exit 2
 if [ -n "$(git -C $REPO status --porcelain)" ]; then echo "$REPO is not clean"; exit 2; fi
 names="$@"; [ -z "$names" ] && names=$(ls seeded)
+# evidence files are rewritten by every run: keep those of the unchanged tree
+EVB=$(mktemp -d); cp -a evidence/. $EVB/
 for n in $names; do
   d=seeded/$n; [ -f $d/patch.diff ] || continue
   prop=$(python3 -c "import json;print(json.load(open('$d/meta.json'))['property'])" 2>/dev/null)
@@ -26,3 +28,4 @@ for n in $names; do
   git -C $REPO checkout -- .
 done
 ./check C01 --tier quick >/dev/null 2>&1   # rebuild against the restored tree
+cp -a $EVB/. evidence/; rm -rf $EVB
